@@ -62,7 +62,9 @@ MUTANTS = [
                     raise''', '''                shutil.copyfile(output, dll)''')]),
     ("c18_in_place_compile", "C18", 1, [(K, "            output = joinpath(build_dir, os.path.basename(dll))",
                                          "            output = dll")]),
-    ("c18_benign_pid_build_dir", "C18", 0, [(K, BUILD_OPEN, '''        build_dir = joinpath(os.path.dirname(dll), "build_%d"%os.getpid())
+    # (counted as benign until the eighteenth seeded round: process ids are unique only inside
+    # one pid namespace, and two containers sharing the cache directory are both "pid 1")
+    ("c18_pid_build_dir", "C18", 1, [(K, BUILD_OPEN, '''        build_dir = joinpath(os.path.dirname(dll), "build_%d"%os.getpid())
         os.makedirs(build_dir, exist_ok=True)
         try:
             output = joinpath(build_dir, os.path.basename(dll))''')]),
